@@ -222,6 +222,9 @@ class StmtMixin:
             k = self.map_key(base, idx)
             base.present = z3.Store(base.present, k, z3.BoolVal(True))
             base.arrs = [z3.Store(a, k, x) for a, x in zip(base.arrs, pack(v, base.v))]
+            owner = getattr(base, "owner", None)
+            if owner is not None:
+                self.write_field(owner[0], owner[1], base)
             return
         if isinstance(base, VDict):
             for i, (k, _) in enumerate(base.entries):
@@ -363,10 +366,18 @@ class StmtMixin:
                         return True
         return False
 
+    def eval_inv(self, spec, lc):
+        try:
+            return spec.invariant(lc)
+        except (OutOfSubset, Halt, PyRaise):
+            raise
+        except Exception as e:  # the invariant does not fit this loop's shape (refactored code): undecided, never a violation
+            raise OutOfSubset(f"loop invariant `{spec.label}` not evaluable on the loop at line {self.cur_line}: {type(e).__name__}: {e}")
+
     def check_inv(self, spec, lc, oid_base, kind):
         if spec is None or spec.invariant is None:
             return
-        res = spec.invariant(lc)
+        res = self.eval_inv(spec, lc)
         items = res if isinstance(res, list) else [("inv", res)]
         for nm, f in items:
             self.oblige(f"{oid_base}#{kind}:{nm}", kind, f)
@@ -374,7 +385,7 @@ class StmtMixin:
     def assume_inv(self, spec, lc):
         if spec is None or spec.invariant is None:
             return
-        res = spec.invariant(lc)
+        res = self.eval_inv(spec, lc)
         items = res if isinstance(res, list) else [("inv", res)]
         for _, f in items:
             self.assume(f)
